@@ -34,8 +34,9 @@ def apply_edit(sources, edits):
         if src.count(old) != 1 and len(ed) < 4:
             return None
         out[path] = src.replace(old, new, 1)
+    for ed in edits:
         try:
-            ast.parse(out[path])
+            ast.parse(out[ed[0]])
         except SyntaxError:
             return None
     return out
